@@ -1,10 +1,10 @@
 """C07 -- frozen instances are immutable yet still evolvable by copy."""
-from . import _sc
+from . import _sc, _spfrozen
 
 
 def main(tier):
     # frozen classes (declared, inherited by a plain subclass, inherited by a decorated subclass) and a frozen child inside a non-frozen parent; "behave exactly as the non-frozen twin" is the
     # c05/c06 conformance with the same Step (which ignores the flag for copy-on-write calls)
     return _sc.run("C07", tier, ["c07_", "c05_", "c06_", "c04_"], names=["frozen_nested", "frozen_list", "frozen_child", "frozen_kids", "frozen_plain_sub", "frozen_spec_sub", "frozen_inv", "frozen_post_copy", "frozen_dnc", "frozen_post_copy_hook"],
-                   quick_pairs=20000, gen_only=lambda g: g["frozen"], need=("cow", "raised", "specified", "changed", "inplace"),
+                   quick_pairs=20000, gen_only=lambda g: g["frozen"], extra=lambda rep, tier: _spfrozen.run(rep, tier, "c07_property_"), need=("cow", "raised", "specified", "changed", "inplace"),
                    assumptions=["a nested frozen instance cannot be changed through the API and is treated as an immutable leaf when identity tokens are collected"])
